@@ -77,6 +77,9 @@ type scenario struct {
 	// OwnObject (death mode, with CtxDeath): the recoverer works through the dead holder's own lock object (a long-lived
 	// worker reusing one lock object across jobs) instead of objects of its own
 	OwnObject bool
+	// SlowSync: File.Sync takes that long on the backend (virtual time; the caller is blocked in the call). The lock protocol
+	// never syncs: the scenario costs nothing as long as that stays so
+	SlowSync time.Duration
 	// glitch mode: the holder's GlitchAt-th backend operation after its Mkdir of the lock directory fails once with a
 	// transient error (the backend is left untouched by that operation); everything else is on time
 	GlitchAt int
@@ -121,6 +124,12 @@ type world struct {
 func (sc scenario) onTime() bool { return sc.Mode == "ontime" || sc.Mode == "glitch" }
 
 func (w *world) beforeOp(op *vfsx.Op) *vfsx.Inject {
+	if w.sc.SlowSync > 0 && op.Kind == vfsx.KFSync {
+		// flushing to stable storage is slow on this backend (a loaded disk); every other call is as quick as ever
+		w.x.Note("the backend takes %v over %s", w.sc.SlowSync, op)
+		time.Sleep(w.sc.SlowSync)
+		return nil
+	}
 	if w.sc.Mode == "glitch" && op.Client == 0 && w.dirOwner == 0 && w.holding {
 		w.glitchOps++
 		if w.sc.GlitchFor > 0 {
@@ -506,6 +515,8 @@ func scenarios() []scenario {
 		scenario{Name: "ontime/H3/2obs gap49+gap20", Mode: "ontime", HoldBeats: 3, Bound: 1, Observers: []observer{obs(49*time.Millisecond, "IsStale", "IsStale", "IsStale"), obs(20*time.Millisecond, "TryLock-override", "TryLock")}},
 		scenario{Name: "ontime/H10/poll IsStale every 7ms", Mode: "ontime", HoldBeats: 10, Bound: 0, Observers: []observer{obs(7*time.Millisecond, rep("IsStale", 70)...)}},
 		scenario{Name: "ontime/H10/poll TryLock-override every 13ms", Mode: "ontime", HoldBeats: 10, Bound: 0, Observers: []observer{obs(13*time.Millisecond, rep("TryLock-override", 38)...)}},
+		scenario{Name: "ontime/H10/poll IsStale every 7ms, fsync takes 120 ms", Mode: "ontime", HoldBeats: 10, Bound: 0, SlowSync: 120 * time.Millisecond, Observers: []observer{obs(7*time.Millisecond, rep("IsStale", 70)...)}},
+		scenario{Name: "ontime/H10/poll TryLock-override every 13ms, fsync takes 120 ms", Mode: "ontime", HoldBeats: 10, Bound: 0, SlowSync: 120 * time.Millisecond, Observers: []observer{obs(13*time.Millisecond, rep("TryLock-override", 38)...)}},
 		scenario{Name: "ontime/H2/1obs(mem)", Mode: "ontime", Backend: "mem", HoldBeats: 2, Bound: 2, Observers: []observer{obs(30*time.Millisecond, "IsStale", "ReleaseIfStale", "TryLock-override")}},
 	)
 	// (a') one transient backend error in the holder's steady state: k-th operation after the lock directory was created
